@@ -15,6 +15,15 @@ use std::collections::HashMap;
 
 pub struct C05;
 
+/// a function is created while its scope is still empty; the list or object it mutates is declared
+/// afterwards in that scope (and an outer container of the same name exists)
+const LATE_CONTAINER_PROGRAMS: &[&str] = &[
+    "items := [\"outer\"]\nfn make() {\nfn push(v) {\nitems += [v]\nitems[0] = v\nreturn items\n}\nitems := [0]\npush(1)\npush(2)\nreturn items\n}\nprint(make())\nprint(items)\n",
+    "reg := {\"who\": \"outer\"}\nif true {\nset := fn (k, v) {\nreg[k] = v\n}\nreg := {}\nset(\"a\", 1)\nprint(reg)\n}\nprint(reg)\n",
+    "log := []\n{\nfn walk(n) {\nif n > 0 {\nlog[0] += 1\nwalk(n - 1)\n}\n}\nlog := [0]\nwalk(3)\nprint(log)\n}\nprint(log)\n",
+    "acc := [9]\ni := 0\nwhile i < 2 {\ni += 1\nbump := fn () {\nacc[0] += 1\nreturn acc\n}\nacc := [i * 10]\nprint(bump())\nprint(bump() === acc)\n}\nprint(acc)\n",
+];
+
 /// (template, class) — class: 'a' alias, 'c' copy/build, 'm' mutation, 'v' value
 pub const OPS: &[(&str, char)] = &[
     ("b = a", 'a'),
@@ -375,6 +384,8 @@ impl Check for C05 {
         )?;
         let tp: Vec<Case> = super::evalorder::THIS_PROGRAMS.iter().enumerate().map(|(i, p)| Case::new(p.to_string(), 8, format!("mutation through `this` reaches the receiver of that call only, program {}", i))).collect();
         ctx.judge(tp, |c, r, o| self.oracle(c, r, o))?;
+        let lp: Vec<Case> = LATE_CONTAINER_PROGRAMS.iter().map(|p| Case::new(p.to_string(), 8, "a function created before the container it mutates is declared".to_string())).collect();
+        ctx.judge(lp, |c, r, o| self.oracle(c, r, o))?;
         let sp: Vec<Case> = super::evalorder::SELF_TARGET_PROGRAMS.iter().map(|p| Case::new(p.to_string(), 8, "targets, indices or bounds that reach the container being assigned".to_string())).collect();
         ctx.judge(sp, |c, r, o| self.oracle(c, r, o))?;
         let bc = build_cases();
